@@ -8,7 +8,7 @@ COMMON_TRUST = [
 
 # module -> theorems listed per property; filled from lean/MoqModel/Props/*.lean
 PROPS = {
-    "C01": dict(module="MoqModel.Props.C01", stages=["corr"], oracles=["C01"],
+    "C01": dict(module="MoqModel.Props.C01", stages=["corr", "cli"], oracles=["C01"],
                 trust=["GoScoping: a WellScoped file is accepted by go/types (validated by type-checking every in-WF real output)"]),
     "C02": dict(module="MoqModel.Props.C02", stages=["corr"], oracles=["C02"],
                 trust=["go/types method-set completion and order"]),
@@ -22,7 +22,7 @@ PROPS = {
                 trust=["as C05; liveness stated as enabledness, no scheduler fairness model"]),
     "C07": dict(module="MoqModel.Props.C07", stages=["corr", "rt"], oracles=["C07"],
                 trust=["`var x T` yields the zero value of T"]),
-    "C08": dict(module="MoqModel.Props.C08", stages=["corr", "rt"], oracles=["C08"], trust=[]),
+    "C08": dict(module="MoqModel.Props.C08", stages=["corr", "rt", "cli"], oracles=["C08"], trust=[]),
     "C09": dict(module="MoqModel.Props.C09", stages=["corr"], oracles=["C09"],
                 trust=["Go instantiation is substitution"]),
     "C10": dict(module="MoqModel.Props.C10", stages=["corr"], oracles=["C10"], trust=[]),
